@@ -53,22 +53,65 @@ def run(ctx):
 
     # ---- R1 inuse pairing ---------------------------------------------------------------
     r1 = ctx.rule("PAIR.inuse", "enter: every path that stores a new key increments inuse exactly once and the existing-key path does not; delete: every path returning the found value decrements exactly once, the not-found returns do not; empty zeroes it", floor=6)
-    inc = paths.field_stores(enter, TAB, "inuse")
-    ok = len(inc) == 1 and inc[0]["op"] == "++"
-    ctx.check(r1, ok, key(enter, "one-inc"), enter.where(enter.root), "enter() must contain exactly one ++inuse (found %s)" % [s["op"] for s in inc])
+    # enter(), path by path over values (symx.run_paths): what each case stores and how the count moves
+    from .. import symx, lin
     found_edge = lambda f, c, pol: pol and "lookup(" in f.canon(c)
     notfound_edge = lambda f, c, pol: (not pol) and "lookup(" in f.canon(c)
-    if ok:
-        incn = inc[0]["node"]
-        newkey = [s for s in paths.stores(enter) if s["rec"] == ENT and s["field"] == "key" and not paths.guarded(enter, s["node"], found_edge)]
-        ctx.check(r1, len(newkey) == 2, key(enter, "insert-sites"), enter.where(enter.root), "expected the head-slot and the chain insertion to store the key (found %d)" % len(newkey))
-        for s in newkey:
-            ctx.check(r1, paths.must_pass(enter, s["node"], lambda e: e == incn) and not paths.may_reach(enter, incn, lambda e: e == incn),
-                      key(enter, "inc-after:" + s["path"]), enter.where(s["node"]), "a new key is stored (`%s`) on a path that does not increment inuse exactly once" % s["path"])
-        ctx.check(r1, paths.guarded(enter, incn, notfound_edge), key(enter, "no-inc-when-found"), enter.where(incn), "inuse is incremented on the path where the key already exists")
-        # every path not taking the found edge stores a new key (no silent drop)
-        allnew = set(s["node"] for s in newkey)
-        ctx.check(r1, all(paths.always_before(enter, r, lambda e: e in allnew) or paths.guarded(enter, r, found_edge) for r in enter.find("Return")), key(enter, "always-insert"), enter.where(enter.root), "a path returns without inserting although the key was not found")
+    LK = "lookup(h, hash, key, len)"
+    HEAD = "h->table[hash]"
+    ebad = {}
+    ecases = {"found-replace": 0, "found-keep": 0, "head": 0, "chain": 0}
+    for pt in symx.run_paths(enter, P):
+        lk = [c_ for c_ in pt.calls if c_[0] == "lookup"]
+        if len(lk) != 1 or lk[0][1] != ["h", "hash", "key", "len"] or any(ev_[0] == "store" and ("->" in ev_[1] or "." in ev_[1]) for ev_ in pt.events[:pt.events.index(("call", "lookup", lk[0][1], lk[0][2]))]):
+            ebad["lookup-first"] = "enter does not look up (h, hash, key, len) first"
+            continue
+        found = pt.atoms.get(("nz", LK))
+        incs = [ev_ for ev_ in pt.events if ev_[0] == "store" and ev_[1] == "h->inuse"]
+        names = {}
+
+        def ren(t):
+            return re.sub(r'__ckd_calloc__\(1, \d+, "[^"]*", \d+\)', lambda m: names.setdefault(m.group(0), "NEW%d" % (len(names) + 1)), t)
+        st_ = [(ren(ev_[1]), ren(lin.p_str(ev_[2]))) for ev_ in pt.events if ev_[0] == "store" and ("->" in ev_[1] or "." in ev_[1]) and ev_[1] != "h->inuse"]
+        ret = lin.p_str(pt.ret) if pt.ret is not None else None
+        if found is None:
+            ebad["always-insert"] = "a path does not depend on whether the key exists"
+        elif found:
+            rep = pt.atoms.get(("nz", "replace"))
+            ecases["found-replace" if rep else "found-keep"] += 1
+            if incs:
+                ebad["no-inc-when-found"] = "inuse is incremented on the path where the key already exists"
+            if rep is None and st_:
+                ebad["replace-flag"] = "an existing entry is modified without the replace flag being tested"
+            elif rep and sorted(st_) != sorted([("(%s)->key" % LK, "key"), ("(%s)->val" % LK, "val")]):
+                ebad["replace-flag"] = "replacing stores %s" % st_
+            elif rep is False and st_:
+                ebad["replace-flag"] = "an existing entry is modified although replacement was not asked for"
+        else:
+            empty = pt.atoms.get(("nz", HEAD + ".key"))
+            if len(incs) != 1 or incs[0][2] != lin.p_add(lin.p_atom("h->inuse"), lin.p_const(1)):
+                ebad["inc-after"] = "a new key is stored on a path that does not increment inuse exactly once"
+            if ret != "val":
+                ebad["always-insert"] = "an insertion returns %s" % ret
+            if empty is None:
+                ebad["head-only-if-empty"] = "head slot used without the dominating `key == NULL` test"
+            elif empty is False:
+                ecases["head"] += 1
+                d_ = dict(st_)
+                if not (d_.get(HEAD + ".key") == "key" and d_.get(HEAD + ".len") == "len" and d_.get(HEAD + ".val") == "val" and d_.get(HEAD + ".next", "0") == "0" and len(st_) <= 4):
+                    ebad["head-fields"] = "head-slot insertion stores %s" % st_
+            else:
+                ecases["chain"] += 1
+                d_ = dict(st_)
+                order = [x[0] for x in st_]
+                if not (d_.get("(NEW1)->key") == "key" and d_.get("(NEW1)->len") == "len" and d_.get("(NEW1)->val") == "val" and d_.get("(NEW1)->next") == HEAD + ".next" and d_.get(HEAD + ".next") == "NEW1"):
+                    ebad["chain-fields"] = "chain insertion stores %s" % st_
+                elif order.index("(NEW1)->next") > order.index(HEAD + ".next"):
+                    ebad["link-order"] = "chain head is redirected to the new node before the new node took over the old chain (entries are lost)"
+    if not all(ecases.values()):
+        ebad.setdefault("always-insert", "expected replace / keep / head-slot / chain cases in enter (%s)" % ecases)
+    for k_ in ("no-inc-when-found", "inc-after", "always-insert"):
+        ctx.check(r1, k_ not in ebad, key(enter, k_), enter.where(enter.root), ebad.get(k_, ""))
     dec = paths.field_stores(delete, TAB, "inuse")
     ok = len(dec) == 1 and dec[0]["op"] == "--"
     ctx.check(r1, ok, key(delete, "one-dec"), delete.where(delete.root), "delete() must contain exactly one --inuse (found %s)" % [s["op"] for s in dec])
@@ -310,32 +353,8 @@ def run(ctx):
 
     # ---- R8 insertion -----------------------------------------------------------------------------------------
     r8 = ctx.rule("PROV.insert", "enter looks the key up first with its own (hash,key,len); a new entry gets key, len and val from the parameters; the head slot is used only when empty; a chain node is linked in by `new->next = head->next; head->next = new`", floor=6)
-    lk = enter.calls("lookup")
-    ctx.check(r8, len(lk) == 1 and [enter.canon(x, subst=False) for x in enter.args(lk[0])] == ["h", "hash", "key", "len"], key(enter, "lookup-first"), enter.where(enter.root), "enter does not look up (h, hash, key, len) first")
-    ins = [s for s in paths.stores(enter) if s["rec"] == ENT and not paths.guarded(enter, s["node"], found_edge)]
-    bysite = {}
-    for s in ins:
-        base = s["path"].rsplit("->", 1)[0]
-        bysite.setdefault(base, {})[s["field"]] = enter.canon(s["rhs"], subst=False)
-    for base, fl in bysite.items():
-        if base == "cur":
-            continue
-    head = bysite.get("cur", {})
-    new = bysite.get("new", {})
-    ctx.check(r8, all(head.get(k) == k for k in ("key", "len", "val")) and head.get("next") in ("0", "new"), key(enter, "head-fields"), enter.where(enter.root), "head-slot insertion stores %s" % head)
-    ctx.check(r8, all(new.get(k) == k for k in ("key", "len", "val")) and new.get("next") == "cur->next", key(enter, "chain-fields"), enter.where(enter.root), "chain insertion stores %s" % new)
-    for s in ins:
-        if s["path"] == "cur->key":
-            ctx.check(r8, paths.guarded(enter, s["node"], lambda fn, cc, pol: paths.cond_atoms(fn, cc, pol, subst=False) == ("cur->key", False)), key(enter, "head-only-if-empty"), enter.where(s["node"]), "head slot overwritten without the dominating key == NULL test (the old entry is lost)")
-        if s["path"] == "cur->next" and enter.canon(s["rhs"], subst=False) == "new":
-            pre = [t for t in ins if t["path"] == "new->next" and paths.same_block(enter, t["node"], s["node"]) and paths.pos_of(enter, t["node"])[1] < paths.pos_of(enter, s["node"])[1]]
-            ctx.check(r8, len(pre) == 1, key(enter, "link-order"), enter.where(s["node"]), "chain head is redirected to the new node before the new node took over the old chain (entries are lost)")
-    curdef = [s for s in paths.stores(enter) if s["path"] == "cur" and s["rhs"] is not None and "lookup" not in enter.canon(s["rhs"], subst=False)]
-    ctx.check(r8, len(curdef) == 1 and enter.canon(curdef[0]["rhs"], subst=False) == "&h->table[hash]", key(enter, "bucket"), enter.where(enter.root), "insertion bucket is not &h->table[hash]")
-    # replace only under the flag
-    for s in paths.stores(enter):
-        if s["rec"] == ENT and paths.guarded(enter, s["node"], found_edge):
-            ctx.check(r8, paths.guarded(enter, s["node"], lambda fn, cc, pol: paths.cond_atoms(fn, cc, pol) == ("replace", True)), key(enter, "replace-flag:" + s["field"]), enter.where(s["node"]), "an existing entry is modified without the replace flag")
+    for k_ in ("lookup-first", "head-fields", "chain-fields", "head-only-if-empty", "link-order", "replace-flag"):
+        ctx.check(r8, k_ not in ebad, key(enter, k_), enter.where(enter.root), ebad.get(k_, ""))
 
     # ---- positive control -----------------------------------------------------------------------------------------
     fx = {f.name: f for f in P.functions("fixture:hash_fx.c")}
